@@ -664,8 +664,28 @@ def run(ctx, anchors=None):
         elif n["k"] == "opcall" and n.get("op") in ("=", "+=", "-=", "<<") and n.get("args") and n.get("mconst") is False:
             tgt = n["args"][0]
         tgts = [tgt] if tgt is not None else []
-        if n["k"] == "call" and n.get("pk"):
+        eff_paths = []
+        if n["k"] in ("call", "mcall") and n.get("cid") and not n.get("ext") and any(g_.body is not None for g_ in prog.resolve(n["cid"])):
+            # a repository function (an extracted helper): what it writes, in the caller's terms
+            pos0 = cfg9.position(n)
+            if pos0 is not None and pos0[0] in skipped_blocks:
+                eff_paths = list(prog.call_effects(opstep, n).keys())
+            tgts = []
+        elif n["k"] == "call" and n.get("pk"):
             tgts = [a_ for i_, a_ in enumerate(n.get("args", [])) if a_ is not None and i_ < len(n["pk"]) and n["pk"][i_] in ("r", "p")]
+        for p_ in eff_paths:
+            root = p_[0]
+            if root[0] != "parm":
+                continue
+            fld = [x for x in p_[1:] if x not in ("*", "[]")]
+            pname = opstep.params[root[1]]["n"] if isinstance(root[1], int) and root[1] < len(opstep.params) else str(root[1]).split("#")[0]
+            is_env = any(pp_["n"] == pname and "Environment" in (pp_.get("ty") or "") for pp_ in opstep.params)
+            if is_env and not fld:
+                continue
+            name = fld[0] if is_env else pname      # another parameter (the iterator `pc`, the local script) is named by itself
+            n9 += 1
+            if name not in BOOKKEEPING:
+                bad9.append((name, opstep.loc(n), astq.estr(n)[:60]))
         for tg in tgts:
             pos = cfg9.position(n)
             if pos is None or pos[0] not in skipped_blocks:
